@@ -558,9 +558,21 @@ def denoted_files(tree: Tree, suite_dir: str, line: str, for_suites: bool) -> Li
         # a line that starts with `[` is a section header, whatever follows; none of the lines generated here is a
         # valid one
         raise Invalid('section header syntax')
-    quoted = len(text) >= 2 and text[0] == text[-1] and text[0] in '\'"'
-    name = text[1:-1] if quoted else text
-    if ' ' in name and not quoted:
+    # the line is ONE token: either quoted as a whole ('...' or "...", taken literally) or free of white space and
+    # quote characters; anything after the token but white space is a superfluous argument
+    if text[0] in '\'"':
+        end = text.find(text[0], 1)
+        if end == -1:
+            raise Invalid('missing end quote')
+        quoted, name, rest = True, text[1:end], text[end + 1:]
+        if rest and not rest[0].isspace():
+            raise ValueError('harness: line form outside the reference semantics: ' + line)
+    else:
+        parts = text.split(None, 1)
+        quoted, name, rest = False, parts[0], (parts[1] if len(parts) > 1 else '')
+        if '\'' in name or '"' in name:
+            raise ValueError('harness: line form outside the reference semantics: ' + line)
+    if rest.strip():
         raise Invalid('superfluous argument')
     if quoted or not any(w in name for w in _WILD):
         cands = [_norm((suite_dir + '/' + name) if suite_dir else name)]
@@ -587,7 +599,10 @@ class SuiteSpec:
         self.broken = broken  # text appended that is a syntax error in a suite file
         self.conf = conf  # valid text put before the [suites] / [cases] sections (a [conf] section)
 
-    def text(self) -> str:
+    def text(self):
+        if isinstance(self.broken, bytes):
+            # a suite file that is not text (not valid UTF-8)
+            return (self.conf + suite_text(self.suites, self.cases, '')).encode('utf-8') + self.broken
         return self.conf + suite_text(self.suites, self.cases, self.broken or '')
 
 
